@@ -47,6 +47,41 @@ theorem single_wfd (n : Nat) : ∀ (ks : List Nat) (k : Nat) (l : Leaf), WFD n (
     · simp at hi
 
 mutual
+theorem wfB_sound (n : Nat) : ∀ v : V, wfB n v = true → WF n v
+  | .leaf _, _ => by simp [WF]
+  | .dict l, h => by
+    simp only [wfB, Bool.and_eq_true, beq_iff_eq] at h
+    exact ⟨h.1, wfLB_sound n l h.2⟩
+theorem wfLB_sound (n : Nat) : ∀ l : Ctx, wfLB n l = true → WFL n l
+  | [], _ => by simp [WFL]
+  | none :: r, h => by simp only [wfLB] at h; simpa [WFL] using wfLB_sound n r h
+  | some v :: r, h => by
+    simp only [wfLB, Bool.and_eq_true] at h
+    exact ⟨wfB_sound n v h.1, wfLB_sound n r h.2⟩
+end
+
+/-- `str_to_dict(key, v)` of a well-formed value is a dictionary over the alphabet -/
+theorem singleV_wfd (n : Nat) : ∀ (ks : List Nat) (k : Nat) (v : V), WF n v → WFD n (singleV n k ks v)
+  | [], k, v, hw => by
+    refine ⟨singleV_length n k [] v, ?_⟩
+    rw [wfl_iff]; intro w hv
+    simp only [singleV, List.mem_map] at hv
+    obtain ⟨i, _, hi⟩ := hv
+    split at hi
+    · simp only [Option.some.injEq] at hi; subst hi; exact hw
+    · simp at hi
+  | k' :: ks, k, v, hw => by
+    refine ⟨singleV_length n k (k' :: ks) v, ?_⟩
+    rw [wfl_iff]; intro w hv
+    simp only [singleV, List.mem_map] at hv
+    obtain ⟨i, _, hi⟩ := hv
+    split at hi
+    · simp only [Option.some.injEq] at hi; subst hi
+      have := singleV_wfd n ks k' v hw
+      simp only [WF]; exact this
+    · simp at hi
+
+mutual
 theorem updV_wf (n : Nat) : ∀ (v : V) (a : Option V), WFO n a → WF n v → WF n (updV a v)
   | .leaf _, _, _, _ => by simp [updV, WF]
   | .dict y, none, _, hv => by simpa [updV] using hv
@@ -131,9 +166,12 @@ theorem interN_wfd (n : Nat) (cs : List Ctx) (h : ∀ c ∈ cs, WFD n c) : WFD n
   | nil => exact wfd_empty n
   | cons c cs => simp only [interN]; exact interFold_wfd n cs c (h c (by simp))
 
-theorem fmtUpdate_wfd (n k : Nat) (ks : List Nat) (v : SVal) (c x : Ctx) (hc : WFD n c)
+theorem fmtUpdate_wfd (n k : Nat) (ks : List Nat) (v : SVal) (c x : Ctx) (hc : WFD n c) (hw : v.wf n = true)
     (hv : fmtUpdate n k ks v c = .ok x) : WFD n x := by
   cases v with
+  | dictv y =>
+    simp only [fmtUpdate] at hv; cases hv
+    exact updL_wfd n c _ hc (singleV_wfd n ks k _ (wfB_sound n _ hw))
   | const l =>
     simp only [fmtUpdate] at hv; cases hv
     exact updL_wfd n c _ hc (single_wfd n ks k l)
@@ -146,42 +184,46 @@ theorem fmtUpdate_wfd (n k : Nat) (ks : List Nat) (v : SVal) (c x : Ctx) (hc : W
       exact updL_wfd n c _ hc (single_wfd n ks k l)
 
 mutual
-theorem fold_wfd (n : Nat) : ∀ (t : Tree) (c x : Ctx), WFD n c → fold n t c = .ok x → WFD n x
-  | .leaf (.set k ks v), c, x, h, hv => by
+theorem fold_wfd (n : Nat) : ∀ (t : Tree) (c x : Ctx), t.valsWF n = true → WFD n c → fold n t c = .ok x → WFD n x
+  | .leaf (.set k ks v), c, x, hw, h, hv => by
     simp only [fold, foldElem] at hv
-    exact fmtUpdate_wfd n k ks v c x h hv
-  | .leaf .store, c, x, h, hv => by simp only [fold, foldElem] at hv; cases hv; exact h
-  | .leaf .ucfs, c, x, h, hv => by simp only [fold, foldElem] at hv; cases hv; exact h
-  | .leaf (.mkf _), c, x, h, hv => by simp only [fold, foldElem] at hv; cases hv; exact h
-  | .leaf (.write _), c, x, h, hv => by simp only [fold, foldElem] at hv; cases hv; exact h
-  | .leaf (.cache _), c, x, h, hv => by simp only [fold, foldElem] at hv; cases hv; exact h
-  | .leaf .data, c, x, h, hv => by simp only [fold, foldElem] at hv; cases hv; exact h
-  | .leaf (.mut ..), c, x, h, hv => by simp only [fold, foldElem] at hv; cases hv; exact h
-  | .leaf .src, c, x, h, hv => by simp only [fold, foldElem] at hv; cases hv; exact h
-  | .seq _ cs, c, x, h, hv => by
+    exact fmtUpdate_wfd n k ks v c x h (by simpa [Tree.valsWF] using hw) hv
+  | .leaf .store, c, x, _, h, hv => by simp only [fold, foldElem] at hv; cases hv; exact h
+  | .leaf .ucfs, c, x, _, h, hv => by simp only [fold, foldElem] at hv; cases hv; exact h
+  | .leaf (.mkf _), c, x, _, h, hv => by simp only [fold, foldElem] at hv; cases hv; exact h
+  | .leaf (.write _), c, x, _, h, hv => by simp only [fold, foldElem] at hv; cases hv; exact h
+  | .leaf (.cache _), c, x, _, h, hv => by simp only [fold, foldElem] at hv; cases hv; exact h
+  | .leaf .data, c, x, _, h, hv => by simp only [fold, foldElem] at hv; cases hv; exact h
+  | .leaf (.mut ..), c, x, _, h, hv => by simp only [fold, foldElem] at hv; cases hv; exact h
+  | .leaf .src, c, x, _, h, hv => by simp only [fold, foldElem] at hv; cases hv; exact h
+  | .seq _ cs, c, x, hw, h, hv => by
     simp only [fold] at hv
-    exact foldL_wfd n cs c x h hv
-  | .split bs, c, x, h, hv => by
+    exact foldL_wfd n cs c x (by simpa [Tree.valsWF] using hw) h hv
+  | .split bs, c, x, hw, h, hv => by
     simp only [fold] at hv
+    have hw' : valsWFL n bs = true := by simpa [Tree.valsWF] using hw
     cases hb : foldB n bs c with
     | error e => simp [hb] at hv
     | ok xs =>
       simp only [hb] at hv
       cases hv
-      exact interN_wfd n xs (foldB_wfd n bs c xs h hb)
-theorem foldL_wfd (n : Nat) : ∀ (ts : List Tree) (c x : Ctx), WFD n c → foldL n ts c = .ok x → WFD n x
-  | [], c, x, h, hv => by simp only [foldL] at hv; cases hv; exact h
-  | t :: ts, c, x, h, hv => by
+      exact interN_wfd n xs (foldB_wfd n bs c xs hw' h hb)
+theorem foldL_wfd (n : Nat) : ∀ (ts : List Tree) (c x : Ctx), valsWFL n ts = true → WFD n c → foldL n ts c = .ok x →
+    WFD n x
+  | [], c, x, _, h, hv => by simp only [foldL] at hv; cases hv; exact h
+  | t :: ts, c, x, hw, h, hv => by
+    simp only [valsWFL, Bool.and_eq_true] at hw
     simp only [foldL] at hv
     cases ht : fold n t c with
     | error e => simp [ht] at hv
     | ok c' =>
       simp only [ht] at hv
-      exact foldL_wfd n ts c' x (fold_wfd n t c c' h ht) hv
-theorem foldB_wfd (n : Nat) : ∀ (bs : List Tree) (c : Ctx) (xs : List Ctx), WFD n c → foldB n bs c = .ok xs →
-    ∀ x ∈ xs, WFD n x
-  | [], c, xs, h, hv => by simp only [foldB] at hv; cases hv; simp
-  | b :: bs, c, xs, h, hv => by
+      exact foldL_wfd n ts c' x hw.2 (fold_wfd n t c c' hw.1 h ht) hv
+theorem foldB_wfd (n : Nat) : ∀ (bs : List Tree) (c : Ctx) (xs : List Ctx), valsWFL n bs = true → WFD n c →
+    foldB n bs c = .ok xs → ∀ x ∈ xs, WFD n x
+  | [], c, xs, _, h, hv => by simp only [foldB] at hv; cases hv; simp
+  | b :: bs, c, xs, hw, h, hv => by
+    simp only [valsWFL, Bool.and_eq_true] at hw
     simp only [foldB] at hv
     by_cases hg : b.hasGet = true
     · simp only [hg, if_true] at hv
@@ -197,10 +239,28 @@ theorem foldB_wfd (n : Nat) : ∀ (bs : List Tree) (c : Ctx) (xs : List Ctx), WF
           intro y hy
           simp only [List.mem_cons] at hy
           rcases hy with hy | hy
-          · subst hy; exact fold_wfd n b c _ h hb
-          · exact foldB_wfd n bs c xs' h hr y hy
+          · subst hy; exact fold_wfd n b c _ hw.1 h hb
+          · exact foldB_wfd n bs c xs' hw.2 h hr y hy
     · simp only [hg] at hv
-      exact foldB_wfd n bs c xs h hv
+      exact foldB_wfd n bs c xs hw.2 h hv
 end
+
+theorem valsWFL_take (n : Nat) : ∀ (ts : List Tree) (i : Nat), valsWFL n ts = true → valsWFL n (ts.take i) = true
+  | [], i, _ => by simp [valsWFL]
+  | t :: ts, 0, _ => by simp [valsWFL]
+  | t :: ts, i + 1, h => by
+    simp only [valsWFL, Bool.and_eq_true, List.take_succ_cons] at h ⊢
+    exact ⟨h.1, valsWFL_take n ts i h.2⟩
+
+theorem valsWFL_get (n : Nat) : ∀ (ts : List Tree) (i : Nat) (t : Tree), valsWFL n ts = true → ts[i]? = some t →
+    t.valsWF n = true
+  | [], i, t, _, ht => by simp at ht
+  | t0 :: ts, 0, t, h, ht => by
+    simp only [valsWFL, Bool.and_eq_true] at h
+    simp only [List.getElem?_cons_zero, Option.some.injEq] at ht; subst ht; exact h.1
+  | t0 :: ts, i + 1, t, h, ht => by
+    simp only [valsWFL, Bool.and_eq_true] at h
+    simp only [List.getElem?_cons_succ] at ht
+    exact valsWFL_get n ts i t h.2 ht
 
 end Lena.C13
